@@ -22,8 +22,8 @@ ID = "C20"
 LEVEL = "exploration"
 RULE = (
     "Histories of 1-3 (thorough 1-4) calls over {read with AmplitudeChain / GooFitChain / GooFitPyChain, convert to C++, convert to "
-    "Python} x a pool of 6 small option files with different resonance content (two carrying the coherent-sum option, 0 and 1; one "
-    "with another event type), drawn by Hypothesis; each history runs in a forked child of a process that imported the package but "
+    "Python} x a pool of 7 small option files with different resonance content (two carrying the coherent-sum option, 0 and 1; one "
+    "with another event type; two with the same parameter and amplitude names but different values and fix flags), drawn by Hypothesis; each history runs in a forked child of a process that imported the package but "
     "never read a file (warm: special-particle table appended and look-ups of the pool's names memoised; cold: nothing looked up, "
     "no memo), and every step's result (amplitude strings, couplings, tables, output lines as a multiset without the timestamp "
     "line) must equal the result of the same single call in a fresh interpreter (subprocess, PYTHONHASHSEED=0). Fresh "
@@ -149,7 +149,7 @@ def compare_history(hist, d, ref, memo, label):
 
 
 def nontrivial(hist):
-    return len(hist) >= 2 and len({frozenset(P.RESONANCES[n]) for _, n in hist}) >= 2
+    return len(hist) >= 2 and (len({frozenset(P.RESONANCES[n]) for _, n in hist}) >= 2 or {"vv-rho", "vv-rho-postfit"} <= {n for _, n in hist})
 
 
 def warm_up(d):
@@ -188,7 +188,14 @@ def run_unit(unit, seed, rec, tier):
     if unit["kind"] == "warm":
         warm_up(d)
         action = st.tuples(st.sampled_from(P.OPS), st.sampled_from(P.NAMES))
-        strat = st.lists(action, min_size=1, max_size=unit["maxlen"])
+        # histories built around a related pair of files (same names with other values; cartesian then polar;
+        # shared resonances) are drawn as often as unconstrained ones
+        pairs = (("vv-rho", "vv-rho-postfit"), ("vv-rho-postfit", "vv-rho"), ("cart-1", "vv-rho"), ("cart-1", "cart-0-partial"),
+                 ("kmatrix-focus", "vv-omega"), ("a1-spline", "vv-rho"), ("cart-0-partial", "vv-omega"), ("vv-omega", "kmatrix-focus"))
+        related = st.builds(lambda op1, op2, pr, filler: [(op1, pr[0])] + filler + [(op2 or op1, pr[1])],
+                            st.sampled_from(P.OPS), st.one_of(st.none(), st.sampled_from(P.OPS)), st.sampled_from(pairs),
+                            st.lists(action, max_size=max(0, unit["maxlen"] - 2)))
+        strat = st.one_of(st.lists(action, min_size=1, max_size=unit["maxlen"]), related)
 
         def check(hist, rec_):
             hist = [tuple(x) for x in hist]
